@@ -6,6 +6,7 @@ sequence obligations (F): a solver-chosen sequence (length <= 4, repetition allo
 every step, the artefact the same call gives on a fresh deep copy; same for one shared AST parsed / re-emitted repeatedly.
 """
 import ast
+from collections import OrderedDict
 from copy import deepcopy
 
 from harness.rt import *  # noqa: F401,F403
@@ -30,6 +31,8 @@ EMITTERS = ("class", "function", "argparse", "docstring")
 
 
 def _emit(ir, which, wrap=True):
+    if which == 4:
+        return emit.class_(ir, class_name="K", emit_call=True)
     if which == 0:
         return emit.class_(ir, class_name="K")
     if which == 1:
@@ -73,6 +76,11 @@ def pool_ir(i, p=None, d=None):
         return mk_ir("p1_ret", p=p or "the a")
     if i == 2:
         return mk_ir("p3_mixed", p=p or "the a", d=1 if d is None else d)
+    if i == 6:
+        # no carried body, a return entry whose code default mentions the parameters inside a larger expression
+        ir = mk_ir("p2_both_d", p=p or "the a", d=1 if d is None else d)
+        ir["returns"] = OrderedDict([("return_type", {"typ": "Tuple[int, str]", "doc": "the result", "default": "```(a * 2, b)```"})])
+        return ir
     if i == 4:
         return mk_ir("p1_untyped_d", p=p or "the a", d=1 if d is None else d)
     if i == 5:
@@ -123,6 +131,102 @@ def sequence(i, n, s1, s2, s3, s4):
         return True
 
 
+FRESH = r'''
+import sys, json, ast
+sys.path.insert(0, "/verif")
+import lib.prelude
+import harness.C13 as H
+i, w = int(sys.argv[1]), int(sys.argv[2])
+a = H._emit(H.pool_ir(i), w)
+print(json.dumps(a if isinstance(a, str) else ast.dump(a)))
+'''
+
+
+def prepare(tier):
+    """artefact of every (pool IR, emitter) pair computed ALONE in a fresh interpreter: a reference that no state left behind by an
+    earlier path or step (caches, mutated shared nodes) can have touched"""
+    import json as _json
+    import subprocess
+    import sys
+
+    from lib.chutil import fresh_env
+
+    env = fresh_env()
+    ref = {}
+    for i in (1, 6):
+        for w in range(5):
+            if i == 1 and w == 4:
+                continue  # emit_call=True on a return entry without default raises KeyError (KF-C16-emit-call-no-return-default)
+            p = subprocess.run([sys.executable, "-c", FRESH, str(i), str(w)], capture_output=True, text=True, env=env)
+            ref["%d_%d" % (i, w)] = _json.loads(p.stdout.strip().splitlines()[-1])
+    return ref
+
+
+_PREP = []
+
+
+def prepared():
+    if not _PREP:
+        import json as _json
+        import os
+
+        f = os.environ.get("VERIF_PREPARED")
+        _PREP.append(_json.load(open(f)) if f and os.path.exists(f) else prepare("quick"))
+    return _PREP[0]
+
+
+def sequence_fresh(i, n, s1, s2, s3):
+    """as `sequence`, with emit_call=True among the emitters, judged against fresh-interpreter references"""
+    i, n, s1, s2, s3 = realize((i, n, s1, s2, s3))
+    with untraced():
+        shared = pool_ir(i)
+        for w in (s1, s2, s3)[:n]:
+            if i == 1 and w == 4:
+                return True
+            got = _emit(shared, w)
+            got = got if isinstance(got, str) else ast.dump(got)
+            if got != prepared()["%d_%d" % (i, w)]:
+                return False
+        return True
+
+
+FRESH_SEQ = r'''
+import sys
+sys.path.insert(0, "/verif")
+import lib.prelude
+import harness.C13 as H
+a = [int(x) for x in sys.argv[1:]]
+print("RESULT", H.sequence_fresh(*a))
+'''
+
+
+def _fallback_box(x):
+    return {"found": x}
+
+
+def find_self_contained(i):
+    """search the sequence table, one FRESH interpreter per sequence, for a sequence that fails on its own"""
+    import itertools
+    import subprocess
+    import sys
+    from concurrent.futures import ThreadPoolExecutor
+
+    from lib.chutil import fresh_env
+
+    env = fresh_env()
+    cands = [(n,) + s + (0,) * (3 - n) for n in (1, 2, 3) for s in itertools.product(range(5), repeat=n)]
+
+    def run(c):
+        p = subprocess.run([sys.executable, "-c", FRESH_SEQ, str(i)] + [str(x) for x in c], capture_output=True, text=True, env=env)
+        return c, "RESULT True" in p.stdout
+
+    with ThreadPoolExecutor(max_workers=12) as ex:
+        for c, ok in ex.map(run, cands):
+            if not ok:
+                return list(c)
+    return None
+
+
 def parse_twice(k):
     """parsing does not alter the tree it was given in a way that changes a later parse / emit"""
     k = realize(k)
@@ -170,6 +274,13 @@ def obligations(tier, seed):
             body="H.sequence(%d, n, s1, s2, s3, s4)" % i, witness=(1, 3, 0, 0, 0), kind="F",
             bounds="pool IR %d; every sequence of emitters {class,function,argparse,docstring} of length 1..%d with repetition"
             % (i, 3 if tier == "quick" else 4), timeout=200 if tier == "quick" else 900, path_timeout=100, funcs=FUNCS))
+    for i in (1, 6):
+        obs.append(Ob(name="sequence_fresh_ir%d" % i, params=[("n", "int"), ("s1", "int"), ("s2", "int"), ("s3", "int")],
+                      pre=["1 <= n <= 3", "all(0 <= x < 5 for x in (s1, s2, s3))", "(n >= 2 or s2 == 0) and (n >= 3 or s3 == 0)"],
+                      body="H.sequence_fresh(%d, n, s1, s2, s3)" % i, witness=(1, 3, 0, 0), kind="F",
+                      bounds="pool IR %d%s; every sequence of length 1..3 over {class, function, argparse, docstring, class with emit_call}; every "
+                      "artefact compared with the same call made alone in a fresh interpreter" % (i, " (return default ```(a * 2, b)```)" if i == 6 else ""),
+                      timeout=200 if tier == "quick" else 900, path_timeout=100, funcs=FUNCS, fallback="H.find_self_contained(%d)" % i))
     obs.append(Ob(name="parse_twice", params=[("k", "int")], pre=["0 <= k <= 2"], body="H.parse_twice(k)", witness=(0,), kind="F",
                   bounds="one shared FunctionDef / ClassDef / argparse FunctionDef parsed twice", timeout=120, funcs=FUNCS))
     return obs
